@@ -3,6 +3,7 @@
   `md5` is an arbitrary function; the label order `lle` is any decidable total order.
 -/
 import Rend.Cluster.Ketama
+import Rend.Gen.Facts
 
 namespace Rend.Props.C19
 open Rend Rend.Cluster
@@ -210,5 +211,11 @@ theorem C19_every_node_on_ring {lle : L → L → Bool} (md5 : Bytes → Bytes) 
     exactly what `sort_perm_eq` uses. -/
 example : ple (fun (a b : Nat) => decide (a ≤ b)) (5, 1) (5, 2) = true ∧
           ple (fun (a b : Nat) => decide (a ≤ b)) (5, 2) (5, 1) = false := by decide
+
+/-- The ring of the model is a function of the node list alone (`ring`); the real `Continuum.Reset`
+    computes it from scratch exactly when the slice it appends the points to starts out empty —
+    regenerated from handlers/memcached/cluster/ketama.go on every run.  With it, what a ring
+    routes after any history of `Reset`s is what a ring built for the current nodes routes. -/
+theorem C19_reset_rebuilds : Gen.continuumResetStartsEmpty = true := by decide
 
 end Rend.Props.C19
